@@ -1176,6 +1176,28 @@ ecdsa_key_gen_le(ec_curve_p curve, uint8_t *rnd, size_t rnd_size,
 	return (0);
 }
 
+/* Message digest -> integer (SEC 1 Ver. 2.0 4.1.3 step 5, GOST R 34.10-2012 6.1 step 2).
+ * ECDSA uses the leftmost min(hash bits, n bits) bits; GOST uses the digest as is.
+ * le != 0: the buffer holds the number least significant octet first, the
+ * most significant ("leftmost") octets are the last ones. */
+static inline int
+ecdsa_hash_import__int(ec_curve_p curve, int le, uint8_t *hash, size_t hash_size,
+    bn_p e) {
+	size_t n_bits, len;
+
+	n_bits = bn_calc_bits(&curve->n);
+	len = MIN(hash_size, ((n_bits + 7) / 8));
+	if (0 != le) {
+		BN_RET_ON_ERR(bn_import_le_bin(e, (hash + (hash_size - len)), len));
+	} else {
+		BN_RET_ON_ERR(bn_import_be_bin(e, hash, len));
+	}
+	if (EC_CURVE_ALGO_ECDSA == curve->algo && (len * 8) > n_bits) {
+		bn_r_shift(e, ((len * 8) - n_bits));
+	}
+	return (0);
+}
+
 /* Signing */
 /* 
  * Input:
@@ -1217,10 +1239,9 @@ ecdsa_sign(ec_curve_p curve, bn_p hash, bn_p priv_key, bn_p rnd,
 	BN_RET_ON_ERR(bn_mod(&R.x, &curve->n, &curve->n_mod_rd_data));
 	if (0 != bn_is_zero(&R.x))
 		return (-1);
-	/* HASH reduce (e). */
+	/* e = hash mod n. */
 	BN_RET_ON_ERR(bn_assign(&R.y, hash));
-	BN_RET_ON_ERR(bn_mod_reduce(&R.y, &curve->n,
-	    &curve->n_mod_rd_data));
+	BN_RET_ON_ERR(bn_mod(&R.y, &curve->n, &curve->n_mod_rd_data));
 
 	/* Store result. (Possible sign_r == hash so do it here). */
 	BN_RET_ON_ERR(bn_assign(sign_r, &R.x));
@@ -1294,7 +1315,7 @@ ecdsa_sign_be(ec_curve_p curve, uint8_t *hash, size_t hash_size,
 	BN_RET_ON_ERR(bn_init(&s, bits));
 	BN_RET_ON_ERR(bn_init(&d, bits));
 	/* HASH import. */
-	BN_RET_ON_ERR(bn_import_be_bin(&r, hash, MIN(hash_size, bytes)));
+	BN_RET_ON_ERR(ecdsa_hash_import__int(curve, 0, hash, hash_size, &r));
 	/* Random number. */
 	BN_RET_ON_ERR(bn_import_be_bin(&s, rnd, bytes));
 	/* Key import. */
@@ -1333,7 +1354,7 @@ ecdsa_sign_le(ec_curve_p curve, uint8_t *hash, size_t hash_size,
 	BN_RET_ON_ERR(bn_init(&s, bits));
 	BN_RET_ON_ERR(bn_init(&d, bits));
 	/* HASH import. */
-	BN_RET_ON_ERR(bn_import_le_bin(&r, hash, MIN(hash_size, bytes)));
+	BN_RET_ON_ERR(ecdsa_hash_import__int(curve, 1, hash, hash_size, &r));
 	/* Random number. */
 	BN_RET_ON_ERR(bn_import_le_bin(&s, rnd, bytes));
 	/* Key import. */
@@ -1382,9 +1403,9 @@ ecdsa_verify(ec_curve_p curve, bn_p hash, bn_p sign_r, bn_p sign_s,
 	BN_RET_ON_ERR(bn_init(&u1, bits));
 	BN_RET_ON_ERR(bn_init(&u2, bits));
 	BN_RET_ON_ERR(ec_point_init(&R, curve->m));
-	/* Hash too long? - reduce. */
+	/* e = hash mod n. */
 	BN_RET_ON_ERR(bn_assign(&u1, hash));
-	BN_RET_ON_ERR(bn_mod_reduce(&u1, &curve->n, &curve->n_mod_rd_data));
+	BN_RET_ON_ERR(bn_mod(&u1, &curve->n, &curve->n_mod_rd_data));
 
 	/* ECDSA: u1 = (hash * s^−1) mod n, u2 = (r * s^−1) mod n */
 	/* GOST: u1 = (hash^−1 * s) mod n, u2 = -(hash^−1 * r) mod n */
@@ -1475,7 +1496,7 @@ ecdsa_verify_be(ec_curve_p curve,
 	BN_RET_ON_ERR(ecdsa_pub_key_import_be(curve, pub_key_x, pub_key_y,
 	    pub_key_size, &Q));
 	/* Import Hash. */
-	BN_RET_ON_ERR(bn_import_be_bin(&e, hash, MIN(hash_size, bytes)));
+	BN_RET_ON_ERR(ecdsa_hash_import__int(curve, 0, hash, hash_size, &e));
 	/* Import r.*/
 	BN_RET_ON_ERR(bn_import_be_bin(&r, sign_r, sign_size));
 	/* Import s.*/
@@ -1512,7 +1533,7 @@ ecdsa_verify_le(ec_curve_p curve,
 	BN_RET_ON_ERR(ecdsa_pub_key_import_le(curve, pub_key_x, pub_key_y,
 	    pub_key_size, &Q));
 	/* Import Hash. */
-	BN_RET_ON_ERR(bn_import_le_bin(&e, hash, MIN(hash_size, bytes)));
+	BN_RET_ON_ERR(ecdsa_hash_import__int(curve, 1, hash, hash_size, &e));
 	/* Import r.*/
 	BN_RET_ON_ERR(bn_import_le_bin(&r, sign_r, sign_size));
 	/* Import s.*/
@@ -1556,10 +1577,9 @@ ecdsa_verify_priv_key(ec_curve_p curve, bn_p hash, bn_p sign_r, bn_p sign_s,
 	BN_RET_ON_ERR(bn_init(&u1, bits));
 	BN_RET_ON_ERR(bn_init(&u2, bits));
 	BN_RET_ON_ERR(ec_point_init(&R, curve->m));
-	/* Hash too long? - reduce. */
+	/* e = hash mod n. */
 	BN_RET_ON_ERR(bn_assign(&u1, hash));
-	BN_RET_ON_ERR(bn_mod_reduce(&u1, &curve->n,
-	    &curve->n_mod_rd_data));
+	BN_RET_ON_ERR(bn_mod(&u1, &curve->n, &curve->n_mod_rd_data));
 
 	/* ECDSA: u1 = (hash * s^−1) mod n, u2 = (r * s^−1) mod n */
 	/* GOST: u1 = (hash^−1 * s) mod n, u2 = -(hash^−1 * r) mod n */
@@ -1649,7 +1669,7 @@ ecdsa_verify_priv_key_be(ec_curve_p curve,
 	BN_RET_ON_ERR(bn_init(&s, bits));
 	BN_RET_ON_ERR(bn_init(&d, bits));
 	/* Import Hash. */
-	BN_RET_ON_ERR(bn_import_be_bin(&e, hash, MIN(hash_size, bytes)));
+	BN_RET_ON_ERR(ecdsa_hash_import__int(curve, 0, hash, hash_size, &e));
 	/* Import r.*/
 	BN_RET_ON_ERR(bn_import_be_bin(&r, sign_r, sign_size));
 	/* Import s.*/
@@ -1684,7 +1704,7 @@ ecdsa_verify_priv_key_le(ec_curve_p curve,
 	BN_RET_ON_ERR(bn_init(&s, bits));
 	BN_RET_ON_ERR(bn_init(&d, bits));
 	/* Import Hash. */
-	BN_RET_ON_ERR(bn_import_le_bin(&e, hash, MIN(hash_size, bytes)));
+	BN_RET_ON_ERR(ecdsa_hash_import__int(curve, 1, hash, hash_size, &e));
 	/* Import r.*/
 	BN_RET_ON_ERR(bn_import_le_bin(&r, sign_r, sign_size));
 	/* Import s.*/
